@@ -1784,12 +1784,8 @@ impl Element for XmlElement {
 
     fn get_attribute(&self, name: &str) -> String {
         let attr = self.get_attribute_node(name);
-        if let Some(attr) = attr {
-            // FIXME:
-            attr.value().unwrap()
-        } else {
-            String::new()
-        }
+        // A value that cannot be expanded reads as no value.
+        attr.and_then(|v| v.value().ok()).unwrap_or_default()
     }
 
     fn get_attribute_node(&self, name: &str) -> Option<XmlAttr> {
